@@ -88,10 +88,12 @@ structure PSt where
   /-- ghost: how often f put itself to sleep on the signal / was woken by a raiser -/
   parks : Nat → Nat
   wakes : Nat → Nat
+  /-- ghost: `waker f = some g` — raiser g exchanged f out of the word and has not woken it yet -/
+  waker : Nat → Option Nat
 
 def pinit : PSt :=
   { word := .none, scratch := fun _ => false, pc := fun _ => .idle, waiterId := none,
-    parks := fun _ => 0, wakes := fun _ => 0 }
+    parks := fun _ => 0, wakes := fun _ => 0, waker := fun _ => none }
 
 def pstep (s : PSt) : PEv → Option PSt
   | .callWait f =>
@@ -141,7 +143,7 @@ def pstep (s : PSt) : PEv → Option PSt
     | .raiseCalled =>
       if old = s.word then
         match old with
-        | .fiber g => some { s with word := .raised, pc := upd s.pc f (.raiseGot g) }
+        | .fiber g => some { s with word := .raised, waker := upd s.waker g (some f), pc := upd s.pc f (.raiseGot g) }
         | _ => some { s with word := .raised, pc := upd s.pc f (.raiseDone false) }
       else none
     | _ => none
@@ -156,7 +158,8 @@ def pstep (s : PSt) : PEv → Option PSt
     match s.pc f with
     | .raiseReady g' =>
       if g = g' then
-        some { s with wakes := upd s.wakes g (s.wakes g + 1), pc := upd s.pc f (.raiseDone true) }
+        some { s with wakes := upd s.wakes g (s.wakes g + 1), waker := upd s.waker g none,
+                      pc := upd s.pc f (.raiseDone true) }
       else none
     | _ => none
   | .retRaise f r =>
@@ -176,7 +179,7 @@ inductive TPc
   | takeDone             -- token taken; about to return
   | pubCalled
   | published            -- tokens incremented; the raise comes next
-  | raising
+  | raising (pub : Bool) -- inside fiber_signal_raise (pub: it announces a token)
   deriving Repr, DecidableEq, Inhabited
 
 inductive Ev
@@ -196,11 +199,18 @@ structure St where
   /-- ghost: tokens published / taken so far -/
   published : Nat
   taken : Nat
+  /-- ghost: fibers that published a token and have not yet exchanged RAISED in -/
+  fl : List Nat
 
-def init : St := { p := pinit, tokens := 0, tk := fun _ => .idle, published := 0, taken := 0 }
+def init : St :=
+  { p := pinit, tokens := 0, tk := fun _ => .idle, published := 0, taken := 0, fl := [] }
 
 def step (s : St) : Ev → Option St
-  | .callTake f => if s.tk f = .idle then some { s with tk := upd s.tk f .takeLoop } else none
+  | .callTake f =>
+    -- only the signal's one waiter takes tokens (harness: script fiber 0)
+    if s.tk f = .idle ∧ (s.p.waiterId = none ∨ s.p.waiterId = some f) then
+      some { s with p := { s.p with waiterId := some f }, tk := upd s.tk f .takeLoop }
+    else none
   | .ldTokens f v =>
     match s.tk f with
     | .takeLoop => if v = s.tokens then some { s with tk := upd s.tk f (.takeSaw v) } else none
@@ -221,7 +231,8 @@ def step (s : St) : Ev → Option St
     match s.tk f with
     | .pubCalled =>
       if old = s.tokens then
-        some { s with tokens := old + 1, published := s.published + 1, tk := upd s.tk f .published }
+        some { s with tokens := old + 1, published := s.published + 1, fl := f :: s.fl,
+                      tk := upd s.tk f .published }
       else none
     | _ => none
   | .p (.callWait f) =>
@@ -234,12 +245,16 @@ def step (s : St) : Ev → Option St
     | _ => none
   | .p (.callRaise f) =>
     if s.tk f = .published ∨ s.tk f = .idle then
-      (pstep s.p (.callRaise f)).map fun p' => { s with p := p', tk := upd s.tk f .raising }
+      (pstep s.p (.callRaise f)).map fun p' =>
+        { s with p := p', tk := upd s.tk f (.raising (decide (s.tk f = .published))) }
     else none
   | .p (.retRaise f r) =>
     match s.tk f with
-    | .raising => (pstep s.p (.retRaise f r)).map fun p' => { s with p := p', tk := upd s.tk f .idle }
+    | .raising _ => (pstep s.p (.retRaise f r)).map fun p' => { s with p := p', tk := upd s.tk f .idle }
     | _ => none
+  | .p (.xchg f old) =>
+    -- the exchange is the moment the published token is announced: f leaves `fl`
+    (pstep s.p (.xchg f old)).map fun p' => { s with p := p', fl := s.fl.erase f }
   | .p e => (pstep s.p e).map fun p' => { s with p := p' }
 
 def sys : Sys St Ev := { init := init, step := step }
